@@ -131,7 +131,7 @@ def items_of(v, kind):
 class C17(Prop):
     id = "C17"
     props = "C17_Props"
-    coq_files = ("Base", "C17_Model", "C17_Spec", "C17_Proofs", "C17_Props")
+    coq_files = ("Base", "C17_Model", "C17_Spec", "C17_Proofs", "C17_ProofsReq", "C17_Props")
     models = ("C17_Model",)
     packages = {"internal": "internal", "server": "internal/app/referenceserver", "client": "internal/app/referenceclient"}
     kinds = {"c17.msg": "internal", "c17.stream": "internal", "c17.writer": "server", "c17.live": "server",
@@ -306,8 +306,9 @@ class C17(Prop):
                 cases.append(["c17.live", None, ver, rpc, [], 2])
                 cases.append(["c17.live", None, ver, rpc, [[0, [], [0], []]], 1])
         # request substitution
-        for i in range(500 if not big else 10000):
+        for i in range(900 if not big else 12000):
             cases.append(["c17.request", None, 1 + i % 2, self._rawreq(g, rng)])
+        cases += self._target_cases(g, rng, big)
         return self.finalize(cases)
 
     @staticmethod
@@ -316,22 +317,97 @@ class C17(Prop):
         # a name is not used both as header and as trailer (see assumptions); hop-by-hop names never generated
         return r
 
-    @staticmethod
-    def _rawreq(g, rng):
+    # path segments: plain, percent-escapes whose decoding changes the path (reserved characters, '%', space,
+    # UTF-8 sequences; upper- and lower-case hex), sub-delims, characters url.URL re-escapes, malformed escapes
+    SEG_PLAIN = [b"a", b"b.c", b"connectrpc.conformance.v1.ConformanceService", b"Unary", b"x_y", b"~z", b"0", b""]
+    SEG_ESC = [b"some.pkg%2FService", b"%2f", b"a%2Fb%2fc", b"100%25", b"%25", b"%2525", b"a%20b", b"%20", b"%41", b"%7e",
+               b"%C3%A9", b"%c3%a9", b"%E2%9C%93", b"%e2%9c%93", b"%3F", b"%3f", b"%23", b"%3B", b"%2B", b"%00", b"%7F", b"%ff"]
+    SEG_SUB = [b"a+b", b"+", b"a;b", b";v=1", b"a;b=c;d", b"a:b", b"@", b"!$&'()*,=", b"[x]", b"*", b"a=b&c"]
+    SEG_REESC = [b"a b", b" ", b"\"q\"", b"<x>", b"^", b"`", b"{|}", b"\\", b"\xc3\xa9", b"\xe2\x9c\x93", b"a b%2Fc", b"%2F x"]
+    SEG_BAD = [b"%", b"%2", b"%zz", b"%2G", b"a%", b"\x01", b"\x7f", b"\x1f"]
+    URI_QUERIES = [b"a=1", b"a=1&b=2", b"a=1&a=2", b"b=2&a=1&b=1", b"a=", b"a", b"=v", b"a=1&&b=2", b"&", b"a=x+y", b"a=%2F",
+                   b"a=%2f&a=%2B", b"q=%C3%A9", b"a=1;b=2", b"a=1&c;d=2&e=3", b"a=%zz&b=1", b"%zz=1", b"a==b", b"a=1?b=2", b"?",
+                   b"message=e30&encoding=json", b"a=%26%3D", b"~-._=~-._", b"a=!$'()*,:@/[]", b"a=%25"]
+    FRAGMENTS = [b"", b"frag", b"f%20x", b"f?x=1", b"f#g", b"a b", b"%zz", b"%", b"\x01", b"!()*", b"%2F"]
+    Q_NAMES = [b"a", b"q", b"message", b"encoding", b"p q", b"k&=", b"connect", b"\xc3\xa9", b"%41", b"a+b", b";", b"", b"B", b"b"]
+    Q_VALS = [b"1", b"v w", b"", b"a&b=c", b"100%", b"x+y", b"proto", b"v1", b"%2F", b"\xc3\xa9", b"a;b", b"#", b"?", b"/", b"~"]
+
+    @classmethod
+    def _uri(cls, rng, special=0.6):
+        """a request URI: mostly origin-form; path with special segments; query; fragment"""
+        def seg():
+            k = rng.random()
+            if k > special:
+                return rng.choice(cls.SEG_PLAIN)
+            pool = rng.choice([cls.SEG_ESC, cls.SEG_ESC, cls.SEG_ESC, cls.SEG_SUB, cls.SEG_SUB, cls.SEG_REESC, cls.SEG_PLAIN])
+            if rng.random() < 0.04:
+                pool = cls.SEG_BAD
+            return rng.choice(pool)
+        k = rng.random()
+        if k < 0.86:
+            uri = b"/" + b"/".join(seg() for _ in range(rng.randint(0, 3)))
+        elif k < 0.90:
+            uri = b""
+        elif k < 0.94:
+            uri = rng.choice([b"//a/b", b"///a", b"//", b"//a%2Fb", b"//h:1/p", b"///", b"////x"])
+        else:   # no leading slash: runs into the authority
+            uri = rng.choice([b"a/b", b"1/x", b"@h/p", b"a:b", b"*", b"%2Fa", b"x", b":1/p", b"0", b".", b"a b", b"http://h/p", b"[::1]/p"])
+        k = rng.random()
+        if k < 0.4:
+            uri += b"?" + rng.choice(cls.URI_QUERIES)
+        elif k < 0.47:
+            uri += b"?"
+        k = rng.random()
+        if k < 0.15:
+            uri += b"#" + rng.choice(cls.FRAGMENTS)
+        return uri
+
+    @classmethod
+    def _params(cls, g, rng, nraw=None, nenc=None):
+        nraw = rng.choice([0, 0, 1, 2, 3]) if nraw is None else nraw
+        nenc = rng.choice([0, 0, 1, 2, 3]) if nenc is None else nenc
+        rawq = [[rng.choice(cls.Q_NAMES), [rng.choice(cls.Q_VALS) for _ in range(rng.choice([0, 1, 1, 2, 3]))]] for _ in range(nraw)]
+        encq = [[rng.choice(cls.Q_NAMES), g.contents(nil=0.05, bad=0.04), rng.choice([0, 1, 1])] for _ in range(nenc)]
+        return rawq, encq
+
+    @classmethod
+    def _rawreq(cls, g, rng, uri=None, nraw=None, nenc=None, light=False):
         verb = rng.choice(["POST", "POST", "GET", "PUT", "DELETE", "PATCH", "post", "", "M-SEARCH", "QUERY"])
         if rng.random() < 0.03:
             verb = rng.choice(["BAD VERB", "P\tOST", "GE/T"])
-        segs = ["a", "b.c", "connectrpc.conformance.v1.ConformanceService", "Unary", "x_y", "~z", "0"]
-        uri = "/" + "/".join(rng.choice(segs) for _ in range(rng.randint(0, 3)))
-        if rng.random() < 0.5:
-            uri += "?" + "&".join("%s=%s" % (rng.choice("abqm"), rng.choice(["1", "2", "xy", ""])) for _ in range(rng.randint(1, 3)))
-        qnames = ["a", "q", "message", "encoding", "p q", "k&=", "connect"]
-        qvals = ["1", "v w", "", "a&b=c", "100%", "x+y", "proto", "v1"]
-        rawq = [[rng.choice(qnames), [rng.choice(qvals) for _ in range(rng.choice([0, 1, 1, 2, 3]))]]
-                for _ in range(rng.choice([0, 0, 1, 2, 3]))]
-        encq = [[rng.choice(qnames), g.contents(nil=0.05, bad=0.04), rng.choice([0, 1, 1])] for _ in range(rng.choice([0, 0, 1, 2]))]
+        if uri is None:
+            uri = cls._uri(rng)
+        rawq, encq = cls._params(g, rng, nraw, nenc)
+        if light:
+            return [verb, uri, [], rawq, encq, [0]]
         hdrs = g.headers(["x-a", "X-A", "content-type", "X-Req", "accept-encoding", "connect-protocol-version", "x-b"], 4)
         return [verb, uri, hdrs, rawq, encq, g.body(nil=0.05, bad=0.03)]
+
+    def _target_cases(self, g, rng, big):
+        """request-target sweep: every special segment and every URI query / fragment form x {0,1,2,3} raw and
+        encoded parameters x both HTTP versions (headers and body left out: they are covered by the random cases)"""
+        out = []
+        i = 0
+        segs = self.SEG_ESC + self.SEG_SUB + self.SEG_REESC + self.SEG_BAD
+        shapes = [(0, 0), (1, 0), (0, 1), (2, 1), (3, 3)] if big else [(0, 0), (1, 0), (0, 1)]
+        for sg in segs:
+            for (nr, ne) in shapes:
+                uri = rng.choice([b"/" + sg, b"/" + sg + b"/Method", b"/pkg.Service/" + sg, b"/" + sg + b"/" + rng.choice(segs)])
+                if rng.random() < 0.3:
+                    uri += b"?" + rng.choice(self.URI_QUERIES)
+                out.append(["c17.request", None, 1 + i % 2, self._rawreq(g, rng, uri, nr, ne, light=True)])
+                i += 1
+        for q in self.URI_QUERIES + [b""]:
+            for (nr, ne) in shapes:
+                uri = rng.choice([b"/p", b"/a%2Fb", b"", b"/"]) + b"?" + q
+                out.append(["c17.request", None, 1 + i % 2, self._rawreq(g, rng, uri, nr, ne, light=True)])
+                i += 1
+        for f in self.FRAGMENTS:
+            for (nr, ne) in shapes:
+                uri = rng.choice([b"/p", b"/a%2Fb?x=1", b"", b"/p?"]) + b"#" + f
+                out.append(["c17.request", None, 1 + i % 2, self._rawreq(g, rng, uri, nr, ne, light=True)])
+                i += 1
+        return out
 
 
 def _copy(v):
